@@ -192,11 +192,11 @@ RUNTIME_MODULES = ["nemoguardrails/colang/v2_x/runtime/eval.py", SM, FLOWS, "nem
 MUTATORS = {"update", "setdefault", "append", "add", "extend", "insert", "pop", "clear", "appendleft"}
 
 
-def c_no_module_state(ctx):
+def c_no_module_state(ctx, modules=None, rule="C08.c.no-module-state", why_all=None, floor=4):
     """Values bound to one flow instance (evaluated defaults, locals) must not be reachable from another instance through the module:
     the interpreter modules keep no module-level container that a function writes, and memoise no evaluation."""
     n_mod = 0
-    for path in RUNTIME_MODULES:
+    for path in (modules or RUNTIME_MODULES):
         if not ctx.tree.exists(path):
             continue
         n_mod += 1
@@ -233,12 +233,12 @@ def c_no_module_state(ctx):
                 if isinstance(n, ast.Call) and isinstance(n.func, ast.Attribute) and n.func.attr in MUTATORS and isinstance(n.func.value, ast.Name) \
                         and n.func.value.id in containers and not _shadowed(fn, n.func.value.id):
                     bad.append((n.lineno, qualname(fn), first_line(n), "mutates module-level `%s`" % n.func.value.id))
-        ctx.check("C08.c.no-module-state", path, "<module>", "no function writes module-level state", not bad,
+        ctx.check(rule, path, "<module>", "no function writes module-level state", not bad,
                   "%d module-level container(s) %s; none is written by a function, nothing is memoised" % (len(containers), sorted(containers)), line=1)
         for ln, unit, cons, why in bad:
-            ctx.check("C08.c.no-module-state", path, unit, cons, False,
-                      "%s: an object evaluated for one flow instance (e.g. a mutable parameter default) is handed to every later instance" % why, line=ln)
-    ctx.floor("C08.c.no-module-state", "nemoguardrails/colang/v2_x/runtime", "interpreter modules analysed", n_mod, 4)
+            ctx.check(rule, path, unit, cons, False,
+                      "%s: %s" % (why, why_all or "an object evaluated for one flow instance (e.g. a mutable parameter default) is handed to every later instance"), line=ln)
+    ctx.floor(rule, (modules or RUNTIME_MODULES)[0].rsplit("/", 1)[0], "interpreter modules analysed", n_mod, floor)
 
 
 def _shadowed(fn, name):
